@@ -110,6 +110,9 @@ def _component(draw, s, models, kinds):
         lo = draw(_lg(0.05, 2.0)) if draw(st.sampled_from([False, False, False, False, True])) else draw(_lg(1e-6, 1e-3))
         comp["grid"] = [lo, draw(_lg(1e4, 1e7)), draw(st.integers(20, 120))]
         comp["prime"] = draw(st.booleans())
+        # one measured isotherm in three also carries a desorption leg on ANOTHER curve (hysteresis): the default
+        # calculation is about the adsorption branch, whatever else the table holds
+        comp["hysteresis"] = draw(st.sampled_from([0.0, 0.0, 1.25]))
     return comp
 
 
@@ -158,8 +161,15 @@ def build(comp, i):
     lo, hi, npts = comp["grid"]
     P = np.geomspace(lo, hi, int(npts))
     L = np.asarray(m.loading(P), dtype=float)
-    iso = pygaps.PointIsotherm(pressure=P.tolist(), loading=L.tolist(), branch="guess", material="m-0",
-                               adsorbate=ADS[i % 4], temperature=300.0, **ISO_UNITS)
+    if comp.get("hysteresis"):
+        Pd = P[::-1][1:]
+        Ld = np.asarray(m.loading(Pd), dtype=float) * comp["hysteresis"]
+        iso = pygaps.PointIsotherm(pressure=P.tolist() + Pd.tolist(), loading=L.tolist() + Ld.tolist(),
+                                   branch=[False] * len(P) + [True] * len(Pd), material="m-0", adsorbate=ADS[i % 4],
+                                   temperature=300.0, **ISO_UNITS)
+    else:
+        iso = pygaps.PointIsotherm(pressure=P.tolist(), loading=L.tolist(), branch="guess", material="m-0",
+                                   adsorbate=ADS[i % 4], temperature=300.0, **ISO_UNITS)
     if comp.get("prime"):
         iso.loading_at(float(P[len(P) // 2]))  # creates the cached interpolator (activates the range guard)
     return iso, R.PointPure(P, L)
@@ -277,7 +287,7 @@ def assess(isos, pures, p, loadings, ref, what, ctx):
                 sp[i] = pures[i].sp(float(p0[i]))  # library range guard (depends on its cache); same function, own code
                 ctx.label("sp_by_reference_formula")
             try:
-                n0[i] = float(isos[i].loading_at(p0[i]))
+                n0[i] = float(isos[i].loading_at(p0[i], branch="ads"))
             except ValueError:
                 # p_i/x_i recomputed here from the returned loadings can fall an ulp outside the data range of a point
                 # isotherm (the library evaluated its own p_i/x_i): same function, own code
